@@ -308,7 +308,7 @@ theorem poissonChecked_ok (o : Oracles) (cnt : Nat) (lam : Rat) : Ok (poissonChe
   · rw [if_neg h, if_pos (not_le.mp h)]; exact Ok.pure trivial
 
 /-- slots without a neighbour hold 0 (`mesh_nd`, `mesh_ad`) -/
-def WallZero {α : Type} [Zero α] (T : Tabs) (L : Layout) (slots : Nat → Nat) (nb : Nat → Nat → Option Nat) (sv : SlotVec α)
+def SlotWallZero {α : Type} [Zero α] (T : Tabs) (L : Layout) (slots : Nat → Nat) (nb : Nat → Nat → Option Nat) (sv : SlotVec α)
     (upto : Nat → Nat → Nat → Prop) : Prop :=
   ∀ i s k, i < T.n → s < T.ns → k < slots i → upto i s k → nb i k = none → ∀ a, L.slot i s k = .ok a → sv.rd a = .ok 0
 
@@ -327,9 +327,9 @@ theorem before_slot_succ {i s k i' s' k' : Nat} (h : Before i s (k + 1) i' s' k'
 /-- writing slot (i, s, k) keeps readability of every slot and the zeros of the other wall slots -/
 theorem slot_write {α : Type} [Zero α] (hL : LayoutOK T L slots nb) (sv : SlotVec α) (hsv : SlotOK T L slots sv)
     {i s k : Nat} (hi : i < T.n) (hs : s < T.ns) (hk : k < slots i) (a : SlotAddr) (ha : L.slot i s k = .ok a) (v : α)
-    (upto : Nat → Nat → Nat → Prop) (hz : WallZero T L slots nb sv upto) (hv : nb i k = none → v = 0) :
+    (upto : Nat → Nat → Nat → Prop) (hz : SlotWallZero T L slots nb sv upto) (hv : nb i k = none → v = 0) :
     Ok (sv.wr a v) (fun sv' => SlotOK T L slots sv' ∧
-      WallZero T L slots nb sv' (fun i' s' k' => upto i' s' k' ∨ (i' = i ∧ s' = s ∧ k' = k))) := by
+      SlotWallZero T L slots nb sv' (fun i' s' k' => upto i' s' k' ∨ (i' = i ∧ s' = s ∧ k' = k))) := by
   refine Ok.mono (SlotVec.wr_Ok v (hsv i s k hi hs hk a ha)) (fun sv' hrw => ⟨?_, ?_⟩)
   · intro i' s' k' hi' hs' hk' b hb
     rw [hrw b]
@@ -355,10 +355,10 @@ slot of `mesh_nd` is readable and the slots without a neighbour hold 0 -/
 theorem computeNevt_ok (hT : TabsOK T) (hL : LayoutOK T L slots nb) (o : Oracles) (dt : Rat) (x : Vec Rat)
     (hx : x.size = T.n * T.ns) (st : TauSt) (hnr : st.mnr.size = T.n * T.nr) (hnd : SlotOK T L slots st.mnd) :
     Ok (computeNevt T L o dt x st) (fun st' => st'.mnr.size = T.n * T.nr ∧ SlotOK T L slots st'.mnd ∧
-      WallZero T L slots nb st'.mnd (fun _ _ _ => True)) := by
+      SlotWallZero T L slots nb st'.mnd (fun _ _ _ => True)) := by
   unfold computeNevt
   let Inv := fun (i s k : Nat) (st : TauSt) => st.mnr.size = T.n * T.nr ∧ SlotOK T L slots st.mnd ∧
-    WallZero T L slots nb st.mnd (fun i' s' k' => Before i s k i' s' k')
+    SlotWallZero T L slots nb st.mnd (fun i' s' k' => Before i s k i' s' k')
   have hstart : Inv 0 0 0 st := ⟨hnr, hnd, fun i' s' k' _ _ _ hb => by
     unfold Before at hb; omega⟩
   refine Ok.mono (Ok.forUpTo (fun i st => Inv i 0 0 st) hstart (fun i hi st hinv => ?_)) (fun st' h => ⟨h.1, h.2.1, ?_⟩)
@@ -416,7 +416,7 @@ theorem computeNevt_ok (hT : TabsOK T) (hL : LayoutOK T L slots nb) (o : Oracles
 /-- `Apply_nevt`: with the scratch vectors as `Compute_nevt` leaves them no access fails (a non-zero count belongs to a slot
 with a neighbour, so `mesh_chstt[j*n_species+s]` / `mesh_x[j*n_species+s]` are never indexed with j = −1) -/
 theorem applyNevt_ok (hT : TabsOK T) (hL : LayoutOK T L slots nb) (st : TauSt) (hnr : st.mnr.size = T.n * T.nr)
-    (hnd : SlotOK T L slots st.mnd) (hz : WallZero T L slots nb st.mnd (fun _ _ _ => True))
+    (hnd : SlotOK T L slots st.mnd) (hz : SlotWallZero T L slots nb st.mnd (fun _ _ _ => True))
     (x : Vec Rat) (hx : x.size = T.n * T.ns) :
     Ok (applyNevt T L st x) (fun x' => x'.size = T.n * T.ns) := by
   unfold applyNevt
@@ -470,9 +470,9 @@ structure GilOK (T : Tabs) (L : Layout) (slots : Nat → Nat) (g : GilSt) : Prop
 /-- `ComputePropensities`: afterwards the slots of `mesh_ad` without a neighbour hold 0 -/
 theorem computePropensities_ok (hT : TabsOK T) (hL : LayoutOK T L slots nb) (x : Vec Rat) (hx : x.size = T.n * T.ns)
     (g : GilSt) (hg : GilOK T L slots g) :
-    Ok (computePropensities T L x g) (fun g' => GilOK T L slots g' ∧ WallZero T L slots nb g'.ad (fun _ _ _ => True)) := by
+    Ok (computePropensities T L x g) (fun g' => GilOK T L slots g' ∧ SlotWallZero T L slots nb g'.ad (fun _ _ _ => True)) := by
   unfold computePropensities
-  let Inv := fun (i s k : Nat) (g : GilSt) => GilOK T L slots g ∧ WallZero T L slots nb g.ad (fun i' s' k' => Before i s k i' s' k')
+  let Inv := fun (i s k : Nat) (g : GilSt) => GilOK T L slots g ∧ SlotWallZero T L slots nb g.ad (fun i' s' k' => Before i s k i' s' k')
   have hstart : Inv 0 0 0 { g with a0 := 0 } := ⟨⟨hg.ar, hg.a0r, hg.a0d, hg.ad⟩, fun i' s' k' _ _ _ hb => by
     unfold Before at hb; omega⟩
   refine Ok.mono (Ok.forUpTo (fun i g => Inv i 0 0 g) hstart (fun i hi g hinv => ?_)) (fun g' h => ⟨h.1, ?_⟩)
@@ -564,7 +564,7 @@ theorem applyDiffusionC_ok (hT : TabsOK T) (hL : LayoutOK T L slots nb) (x : Vec
 a diffusion event is only applied through a slot whose propensity is positive, hence (zeros on the walls) one that has a
 neighbour -/
 theorem drawAndApplyEvent_ok (hT : TabsOK T) (hL : LayoutOK T L slots nb) (g : GilSt) (hg : GilOK T L slots g)
-    (hz : WallZero T L slots nb g.ad (fun _ _ _ => True)) (r : Rat) (x : Vec Rat) (hx : x.size = T.n * T.ns) :
+    (hz : SlotWallZero T L slots nb g.ad (fun _ _ _ => True)) (r : Rat) (x : Vec Rat) (hx : x.size = T.n * T.ns) :
     Ok (drawAndApplyEvent T L g r x) (fun x' => x'.size = T.n * T.ns) := by
   unfold drawAndApplyEvent
   refine Ok.bind (Ok.forUpTo (fun _ (st : ScanSt) => st.x.size = T.n * T.ns) hx (fun i hi st hst => ?_)) (fun st hst => Ok.pure hst)
